@@ -440,12 +440,17 @@ for s in range(4):
           "label and long-name slots, stopping at the end marker), with its storage position and a slot range starting right "
           "behind the last skipped slot; never panics, never writes" % s,
           "fixed root, 4 arbitrary slots (all contents), 8.3 build", build="bare", timeout=1200))
+    if s != 2:
+        # only the step from slot 2 ran to completion (22 min under load); from slots 0 and 1 the long-name step needs > 20 min and
+        # > 10 GB with the corrected oracle (from 3 it adds nothing): not registered. The cheap concrete patterns
+        # diriter_run_cut_by_deleted / _by_label and the builder-level lnb_* harnesses carry the quick tier.
+        continue
     add(H("dir::verif::ops::diriter_step_lfn_from%d" % s, ["C17", "C08", "C19", "C01"],
           "same step with long names: a long name is attached iff the slots directly in front of the entry are a well-formed run "
           "for THIS entry (orders n|0x40..1, checksum of this short name); otherwise short-name fallback - no partial or "
           "foreign long name, e.g. from a run that belonged to a deleted entry",
           "fixed root, 4 arbitrary slots, long-name orders restricted to 0..=3 (with/without 0x40), fixed-buffer build",
-          build="noalloc", timeout=2400, tier="quick" if s == 0 else "thorough"))
+          build="noalloc", timeout=3600, tier="thorough", mem=12))
 
 # (fixed-buffer build only: in the alloc build the accepting path of the Vec-backed builder runs CBMC out of memory, as in round 1)
 for b_ in ("noalloc",):
@@ -465,10 +470,7 @@ for b_ in ("nounicode",):
               "DirEntry::eq_name on a concrete name pair differing only by case (incl. length-changing Unicode mappings): matches with the "
               "unicode feature, ASCII-only folding without it; never matches a proper prefix/extension; the alias always matches",
               "concrete pair, %s build" % b_, build=b_, timeout=3600, tier="thorough"))
-add(H("dir_entry::verif::eq_name_ascii", ["C15", "C19"],
-      "eq_name on ASCII names == equality with the stored long name or the stored alias ignoring ASCII case, nothing else",
-      "2-unit long name, 2-byte alias, 1..=2-byte query, all ASCII values; build without unicode tables", build="nounicode",
-      tier="thorough", timeout=3600))
+# eq_name_ascii (symbolic 2-character names through eq_name) is not registered: > 27 min without a verdict in the build without unicode tables.
 
 # write_entry_frame / write_entry_frame_lfn (entry creation over arbitrary slot kinds) are NOT registered: find_free_entries
 # returns its stream from several return sites, the merged DirRawStream value has its variant tag in a niche of the payload, and
